@@ -159,6 +159,63 @@ theorem nextInstance_crec (hraw : commentsRaw = true) (lead : List Nat) (hlead :
   simp only [hid, Bool.false_eq_true, ↓reduceIte, hgk, hse]
   simp [crecEntry, hval]
 
+/-- **what `STEPread` is handed for an externally mapped record**: from the recorded offset, `seekg( begin ); findNormalString( "(" )` and
+    one character back leave the stream at the record's outer parenthesis: `( PART(…) PART(…) … ) s4 ; rest` — what
+    `STEPcomplex::STEPread` reads -/
+theorem stepReadInput_crec (hraw : commentsRaw = true) (lead : List Nat) (hlead : Seps lead) (hls : Small lead)
+    (r : CRec F) (hlex : r.Lex) (refs : List Nat) (hlz : LazyCRec r refs) (rest : Bytes) (f : Nat)
+    (hf : 6 * (crec lead r rest).length + 30 ≤ f) :
+    stepReadInput f (crec lead r rest) = .ok ('(' :: (cs (renderCParts r.parts) ++ (')' :: (cs r.s4 ++ (';' :: rest))))) := by
+  have sm1 := hlz.sm.app
+  have sm2 := sm1.2.app
+  have sm3 := sm2.2.app
+  obtain ⟨gL, wL, hgL, hwL, heL⟩ := seps_gap hraw lead hlead hls
+  obtain ⟨g1, w1, hg1, hw1, he1⟩ := seps_gap hraw r.s1 hlex.h1 sm2.1
+  obtain ⟨g2, w2, hg2, hw2, he2⟩ := seps_gap hraw r.s2 hlex.h2 sm3.1
+  have hds : (r.ds).all (inert '(') = true := all_inert_of _ digit_inert _ sm1.1 hlex.ddig
+  obtain ⟨P, hP⟩ : ∃ P, P = cs (renderCParts r.parts) ++ (')' :: (cs r.s4 ++ (';' :: rest))) := ⟨_, rfl⟩
+  obtain ⟨T2, hT2⟩ : ∃ T, T = cs r.s2 ++ ('(' :: P) := ⟨_, rfl⟩
+  obtain ⟨T1, hT1⟩ : ∃ T, T = cs r.s1 ++ ('=' :: T2) := ⟨_, rfl⟩
+  have hL : crec lead r rest = cs lead ++ ('#' :: (cs r.ds ++ T1)) := by
+    simp only [crec, hT1, hT2, hP]
+  have hlT2 : T2.length = (cs r.s2).length + 1 + P.length := by rw [hT2]; simp only [List.length_append, List.length_cons]; omega
+  have hlT1 : T1.length = (cs r.s1).length + 1 + T2.length := by rw [hT1]; simp only [List.length_append, List.length_cons]; omega
+  have len : (crec lead r rest).length = (cs lead).length + 1 + r.ds.length + T1.length := by
+    rw [hL]; simp only [List.length_append, List.length_cons, cs_length]; omega
+  unfold stepReadInput
+  suffices h : findOne '(' f (crec lead r rest) = .ok P by rw [h, hP]
+  rw [hL, heL, gapRender_append]
+  obtain ⟨fa, ha1, ha2⟩ := findOne_gap '(' (by decide) wL hwL ('#' :: (cs r.ds ++ T1)) (by simp) gL hgL
+    (4 * (crec lead r rest).length + 20) f (by
+      have : (gapRender gL wL ('#' :: (cs r.ds ++ T1))).length = (crec lead r rest).length := by
+        rw [hL, heL, gapRender_append]
+      omega)
+  rw [ha2]
+  simp only [List.length_append, List.length_cons, cs_length] at ha1
+  obtain ⟨fb, rfl⟩ : ∃ j, fa = j + 1 := ⟨fa - 1, by omega⟩
+  rw [findOne_char '(' fb '#' _ (by decide) (by decide) (by decide) (by decide)]
+  obtain ⟨fc, rfl⟩ : ∃ j, fb = j + r.ds.length := ⟨fb - r.ds.length, by omega⟩
+  rw [findOne_inerts '(' r.ds hds fc T1]
+  rw [hT1, he1, gapRender_append]
+  obtain ⟨fd, hd1, hd2⟩ := findOne_gap '(' (by decide) w1 hw1 ('=' :: T2) (by simp) g1 hg1
+    (3 * (crec lead r rest).length + 10) fc (by
+      have h1 : (gapRender g1 w1 ('=' :: T2)).length = (cs r.s1).length + 1 + T2.length := by
+        rw [← gapRender_append, ← he1]; simp only [List.length_append, List.length_cons]; omega
+      omega)
+  rw [hd2]
+  simp only [List.length_cons] at hd1
+  obtain ⟨fe, rfl⟩ : ∃ j, fd = j + 1 := ⟨fd - 1, by omega⟩
+  rw [findOne_char '(' fe '=' _ (by decide) (by decide) (by decide) (by decide)]
+  rw [hT2, he2, gapRender_append]
+  obtain ⟨fi, hi1, hi2⟩ := findOne_gap '(' (by decide) w2 hw2 ('(' :: P) (by simp) g2 hg2 1 fe (by
+      have h1 : (gapRender g2 w2 ('(' :: P)).length = (cs r.s2).length + 1 + P.length := by
+        rw [← gapRender_append, ← he2]; simp only [List.length_append, List.length_cons]; omega
+      omega)
+  rw [hi2]
+  simp only [List.length_cons] at hi1
+  obtain ⟨fj, rfl⟩ : ∃ j, fi = j + 1 := ⟨fi - 1, by omega⟩
+  exact findOne_hit '(' fj P (by decide) (by decide) (by decide)
+
 /-! ### a data section of records of both mappings -/
 
 open StepModel.P21.C01
@@ -285,5 +342,116 @@ theorem scan_items (hraw : commentsRaw = true) (d : Dict) (rs : List (AnyRec F))
   rw [scanLoop_pieces _ _ htail (mpieces g0 rs) i1 (fun p hp rest => by have := i2 p hp rest; omega) (by omega) _ (by omega) [],
     hse, mpieces_map]
   simp
+
+/-! ### the recorded offsets of a mixed section -/
+
+theorem crec_append (lead : List Nat) (r : CRec F) (rest : Bytes) : crec lead r rest = crec lead r [] ++ rest := by
+  simp [crec]
+
+/-- a record of either mapping after the layout `lead`, followed by `rest` -/
+def anyText (lead : List Nat) : AnyRec F → Bytes → Bytes
+  | .simple rg => lrec lead rg.1
+  | .complex r _ => crec lead r
+
+def BeginOfAny (S : Bytes) (pos : Nat) (off : Nat) (a : AnyRec F) : Prop :=
+  pos ≤ off ∧ ∃ lead rest, Seps lead ∧ Small lead ∧ S.drop (off - pos) = anyText lead a rest
+
+theorem all2_shift_any (A R : Bytes) (pos : Nat) : ∀ (offs : List Nat) (rs : List (AnyRec F)),
+    All2 (BeginOfAny R (pos + A.length)) offs rs → All2 (BeginOfAny (A ++ R) pos) offs rs := by
+  intro offs rs h
+  induction h with
+  | nil => exact All2.nil
+  | @cons off rg _ _ hb _ ih =>
+    refine All2.cons ?_ ih
+    obtain ⟨hge, ld, rst, hs1, hs2, hd⟩ := hb
+    refine ⟨by omega, ld, rst, hs1, hs2, ?_⟩
+    have : off - pos = A.length + (off - (pos + A.length)) := by omega
+    rw [this, drop_prefix]
+    exact hd
+
+theorem scanBegins_items_loop (hraw : commentsRaw = true) (fuel : Nat) (T : Bytes) (hT : nextInstance fuel T = .ok none) :
+    ∀ (rs : List (AnyRec F)), (∀ a ∈ rs, LazyAny a) → ∀ (lead : List Nat), Seps lead → Small lead →
+      ((mpieces lead rs).foldr (fun p x => p.1 x) T).length + 6 ≤ fuel →
+      ∀ (n pos : Nat) (acc : List Nat), rs.length < n →
+        ∃ offs, scanBeginsLoop n fuel pos ((mpieces lead rs).foldr (fun p x => p.1 x) T) acc = .ok (acc.reverse ++ offs) ∧
+          All2 (BeginOfAny ((mpieces lead rs).foldr (fun p x => p.1 x) T) pos) offs rs := by
+  intro rs
+  induction rs with
+  | nil =>
+    intro _ lead _ _ _ n pos acc hn
+    obtain ⟨n0, rfl⟩ : ∃ j, n = j + 1 := ⟨n - 1, by simp at hn; omega⟩
+    exact ⟨[], by simp [mpieces, scanBeginsLoop, hT], All2.nil⟩
+  | cons a t ih =>
+    intro hrs lead hlead hls hlen n pos acc hn
+    obtain ⟨n0, rfl⟩ : ∃ j, n = j + 1 := ⟨n - 1, by simp at hn; omega⟩
+    cases a with
+    | simple rg =>
+      have h0 : rg.1.Lex ∧ LazyRec rg.1 ∧ Seps rg.2 ∧ Small rg.2 := hrs (.simple rg) (by simp)
+      simp only [mpieces, List.foldr_cons] at hlen ⊢
+      obtain ⟨R, hR⟩ : ∃ R, R = (mpieces rg.2 t).foldr (fun p x => p.1 x) T := ⟨_, rfl⟩
+      rw [← hR] at hlen ⊢
+      have hnext := nextInstance_lrec hraw lead hlead hls rg.1 h0.1 h0.2.1 R fuel hlen
+      have hle : R.length ≤ (lrec lead rg.1 R).length := by rw [lrec_length]; omega
+      obtain ⟨offs, h1, h2⟩ := ih (fun x hx => hrs x (List.mem_cons_of_mem _ hx)) rg.2 h0.2.2.1 h0.2.2.2 (by rw [← hR]; omega) n0
+        (pos + ((lrec lead rg.1 R).length - R.length)) (pos :: acc) (by simp at hn; omega)
+      rw [← hR] at h1 h2
+      refine ⟨pos :: offs, ?_, ?_⟩
+      · simp only [scanBeginsLoop, hnext, h1]; simp
+      · refine All2.cons ⟨Nat.le_refl _, lead, R, hlead, hls, by simp [anyText]⟩ ?_
+        have hA : (lrec lead rg.1 R).length - R.length = (lrec lead rg.1 []).length := by rw [lrec_length lead rg.1 R]; omega
+        rw [hA] at h2
+        rw [lrec_append lead rg.1 R]
+        exact all2_shift_any (lrec lead rg.1 []) R pos _ _ h2
+    | complex r g =>
+      have h0 : r.Lex ∧ LazyCRec r (crefs r) ∧ Seps g ∧ Small g := hrs (.complex r g) (by simp)
+      simp only [mpieces, List.foldr_cons] at hlen ⊢
+      obtain ⟨R, hR⟩ : ∃ R, R = (mpieces g t).foldr (fun p x => p.1 x) T := ⟨_, rfl⟩
+      rw [← hR] at hlen ⊢
+      have hnext := nextInstance_crec hraw lead hlead hls r h0.1 _ h0.2.1 R fuel hlen
+      have hle : R.length ≤ (crec lead r R).length := by rw [crec_length]; omega
+      obtain ⟨offs, h1, h2⟩ := ih (fun x hx => hrs x (List.mem_cons_of_mem _ hx)) g h0.2.2.1 h0.2.2.2 (by rw [← hR]; omega) n0
+        (pos + ((crec lead r R).length - R.length)) (pos :: acc) (by simp at hn; omega)
+      rw [← hR] at h1 h2
+      refine ⟨pos :: offs, ?_, ?_⟩
+      · simp only [scanBeginsLoop, hnext, h1]; simp
+      · refine All2.cons ⟨Nat.le_refl _, lead, R, hlead, hls, by simp [anyText]⟩ ?_
+        have hA : (crec lead r R).length - R.length = (crec lead r []).length := by rw [crec_length lead r R]; omega
+        rw [hA] at h2
+        rw [crec_append lead r R]
+        exact all2_shift_any (crec lead r []) R pos _ _ h2
+
+/-- the recorded offsets of a whole mixed data section: one per record, each at the start of the layout in front of its `#` -/
+theorem scanBegins_items (hraw : commentsRaw = true) (d : Dict) (rs : List (AnyRec F)) (hrs : ∀ a ∈ rs, LazyAny a)
+    (g0 sp tail : List Nat) (hg0 : Seps g0) (hs0 : Small g0) :
+    ∃ offs, scanBegins (cs (g0 ++ renderItems (rs.map (AnyRec.item d)) (RLemmas.endsec sp tail))) = .ok offs ∧
+      All2 (BeginOfAny (cs (g0 ++ renderItems (rs.map (AnyRec.item d)) (RLemmas.endsec sp tail))) 0) offs rs := by
+  obtain ⟨_, i2, i3, i4⟩ := mpieces_next hraw
+    (4 * (cs (g0 ++ renderItems (rs.map (AnyRec.item d)) (RLemmas.endsec sp tail))).length + 16) rs hrs g0 hg0 hs0
+  obtain ⟨gT, wT, hgT, hwT, heT⟩ := seps_gap hraw (mlastLead g0 rs) i3 i4
+  have hfile := cs_renderItems d (RLemmas.endsec sp tail) rs g0
+  have htailEq : cs (mlastLead g0 rs) ++ cs (RLemmas.endsec sp tail) = endsecG gT wT (cs sp) (cs tail) := by
+    rw [heT, gapRender_append, cs_endsec]; rfl
+  rw [htailEq] at hfile
+  have hcount : ∀ (ps : List ((Bytes → Bytes) × Entry)) (x : Bytes), (∀ p ∈ ps, ∀ rest, rest.length + 1 ≤ (p.1 rest).length) →
+      ps.length + x.length ≤ (ps.foldr (fun p y => p.1 y) x).length := by
+    intro ps x
+    induction ps with
+    | nil => intro _; simp
+    | cons p t ih =>
+      intro h
+      have h1 := ih (fun q hq => h q (List.mem_cons_of_mem _ hq))
+      have h2 := h p (by simp) (t.foldr (fun p y => p.1 y) x)
+      simp only [List.foldr_cons, List.length_cons]; omega
+  have hLc := hcount (mpieces g0 rs) (endsecG gT wT (cs sp) (cs tail)) i2
+  have hlen : (mpieces g0 rs).length = rs.length := by
+    have := congrArg List.length (mpieces_map rs g0)
+    simpa using this
+  unfold scanBegins
+  rw [hfile]
+  have htail := nextInstance_endsecG gT hgT wT (cs sp) (cs tail) hwT
+    (4 * ((mpieces g0 rs).foldr (fun p x => p.1 x) (endsecG gT wT (cs sp) (cs tail))).length + 16) (by omega)
+  obtain ⟨offs, h1, h2⟩ := scanBegins_items_loop hraw _ _ htail rs hrs g0 hg0 hs0 (by omega)
+    (((mpieces g0 rs).foldr (fun p x => p.1 x) (endsecG gT wT (cs sp) (cs tail))).length + 1) 0 [] (by omega)
+  exact ⟨offs, by simpa using h1, h2⟩
 
 end StepModel.Lazy
